@@ -1658,6 +1658,9 @@ def run(chk):
                 "magnetic block of the first SLD symbolic (2-D); mono flag",
         "q": "2 symbolic points (1-D), 1 symbolic (qx,qy) (2-D); DirectModel / Iq / Iqxy: concrete 2-point grid, "
              "perfect and 5% pinhole resolution",
+        "history (comp-hist units)": "the same ProductKernel/MixtureKernel object after one other request with a "
+                                     "different dispersity layout (4 enumerated layout pairs, symbolic values); the "
+                                     "requests sent to the leaf kernels are compared as part of the result",
         "prefix": "SasviewModel: 4 prefixes (fresh class; same instance evaluated before; other instance "
                   "evaluated before; clone of an evaluated instance); DirectModel/Iq/Iqxy: 2 (fresh; evaluated before)",
         "solver": "20 s per UF-abstracted query, 60 s per full query; unknown = inconclusive",
